@@ -88,3 +88,44 @@ Check C08_partition_timestampsdirect.
 Print Assumptions C08_partition_timestampsdirect.
 Check C08_rotates_iff_timestampsdirect.
 Print Assumptions C08_rotates_iff_timestampsdirect.
+
+Require Import FL.Oracles.ReaderOrder FL.Flw.NumRestart FL.Flw.NumDTheorems FL.Flw.TsReader FL.Flw.TsPartition.
+(* Timestamps naming (rCURRENT + r<time stamp>[.restart-NNNN]): the same greedy partition; the closed files - named by their
+   keys, in the order of their closing - hold all lists of the partition but the last, rCURRENT holds the last one; no record:
+   empty directory *)
+Theorem C08_partition_timestamps c m t0 off ops :
+  tscfg c (CSize m) -> tag_ok c -> Forall basic_op ops -> Forall tick_ok ops ->
+  (0 <= t0 + ts_e c off)%Z -> (t0 + elapsed ops + ts_e c off < sec_max)%Z -> (N.of_nat (length ops) <= usize_max)%N ->
+  let f := wfs (s_w (fst (run (sys0 t0 off) (OStart c :: ops ++ [OStop])))) in
+  let files := expected_files m None (items false ops) in
+  (has_write ops = false /\ files = [] /\ names f = [])
+  \/ exists keys closed cur,
+       has_write ops = true
+       /\ files = closed ++ [cur]
+       /\ ts_view c (ts_e c off) f keys closed cur
+       /\ keys_ok keys
+       /\ (forall k, In k keys -> (t0 <= fst k <= t0 + elapsed ops)%Z).
+Proof. exact (timestamps_partition c m t0 off ops). Qed.
+
+(* Timestamps naming: a write rotates exactly when the current file already exceeds the limit *)
+Theorem C08_rotates_iff_timestamps c m t0 off ops i o b :
+  tscfg c (CSize m) -> tag_ok c -> Forall basic_op ops -> Forall tick_ok ops ->
+  (0 <= t0 + ts_e c off)%Z -> (t0 + elapsed ops + ts_e c off < sec_max)%Z -> (N.of_nat (length ops) <= usize_max)%N ->
+  nth_error ops i = Some o -> (o = OWrite b \/ o = OPlain b) ->
+  nth_error (snd (run (sys0 t0 off) (OStart c :: ops))) (S i)
+  = Some (ObsRes 0 (m <? N.of_nat (length (cur_of (s_run m None (firstn i ops)))))%N).
+Proof. exact (timestamps_rotates_iff c m t0 off ops i o b). Qed.
+
+(* Timestamps naming: the executable oracle accepts the reader's view of the final directory *)
+Theorem C08_oracle_timestamps c m t0 off ops :
+  tscfg c (CSize m) -> tag_ok c -> not_gz c -> Forall basic_op ops -> Forall tick_ok ops ->
+  (0 <= t0 + ts_e c off)%Z -> (t0 + elapsed ops + ts_e c off < sec_max)%Z -> (N.of_nat (length ops) <= usize_max)%N ->
+  oracle_C08 m None (items false ops) (family_in_order c (snap_of (fst (run (sys0 t0 off) (OStart c :: ops ++ [OStop]))))) = true.
+Proof. exact (timestamps_oracle_C08 c m t0 off ops). Qed.
+
+Check C08_partition_timestamps.
+Print Assumptions C08_partition_timestamps.
+Check C08_rotates_iff_timestamps.
+Print Assumptions C08_rotates_iff_timestamps.
+Check C08_oracle_timestamps.
+Print Assumptions C08_oracle_timestamps.
